@@ -410,6 +410,12 @@ def build_workflow(spec: dict, runtime=None, retry_builder=None, wf_kwargs: dict
                     raise
                 except asyncio.CancelledError:
                     inv["t_out"], inv["exit"], inv["s_out"] = VClock.t, "cancelled", rec.nseq()
+                    if s.get("cancel_note"):
+                        # teardown code that reports progress while being cancelled
+                        try:
+                            ctx.write_event_to_stream(rec.mk("Note", "stream", by=(name, inv["id"]), on_cancel=True))
+                        except Exception:  # noqa: BLE001
+                            pass
                     raise
                 except BaseException as e:  # noqa: BLE001
                     inv["t_out"], inv["exit"], inv["exc"], inv["s_out"] = VClock.t, "raised", e, rec.nseq()
